@@ -21,7 +21,8 @@ extern "C" void h_fd_step() {
     for (int i = 0; i < 8; i++) { g_closed[i] = 0; g_cf_calls[i] = 0; } g_bad_close = 0;
     Rec rec[2];
     for (int r = 0; r < 2; r++) {
-        rec[r].fdnum = 3 + r; rec[r].was_open = nondet_bool(); rec[r].use_func = nondet_bool();
+        rec[r].fdnum = r == 0 ? 0 : 4;            // descriptor numbers 0 (a valid descriptor: e.g. opened after stdin was closed) and 4
+        rec[r].was_open = nondet_bool(); rec[r].use_func = nondet_bool();
         rec[r].d = new Fd::Detail; rec[r].d->fd = rec[r].was_open ? rec[r].fdnum : -1; rec[r].d->ref_count = 0;
         if (rec[r].use_func && rec[r].was_open) rec[r].d->close_func = [](int fd) { if (fd >= 0 && fd < 8) g_cf_calls[fd]++; };
     }
